@@ -1,13 +1,16 @@
 INIT Init
 NEXT Next
+INVARIANT TypeOK
 INVARIANT HandedOutStable
+INVARIANT StoreIsolated
+PROPERTY ReadOnlyFrame
 CONSTANTS
   StoreIn = FALSE
-  InPlace = TRUE
+  InPlace = FALSE
   ReadEdits = FALSE
-  FirstWriteKeeps = FALSE
+  FirstWriteKeeps = TRUE
   HookEditsOld = FALSE
-  InitKinds = {"absent", "present"}
+  InitKinds = {"present"}
   NCases = 0
   MinOps = 1
   MaxOps = 1
